@@ -17,7 +17,7 @@ EXTENDS Naturals, Sequences, FiniteSets, TLC
 CONSTANTS MaxSel, Wide     \* Wide = TRUE: the full ranges (thorough); FALSE: the reduced ranges (quick)
 
 Variants == {"one", "multi", "rank", "oneM", "other", "filter", "rand", "randseed", "randseedref", "filter_rand",
-             "csv", "csv_vl", "xml_filter", "geojson", "external", "repeat", "search"}
+             "csv", "csv_vl", "csv_rand", "xml_filter", "geojson", "geojson_rand", "geojson_v", "geojson_l", "external", "repeat", "search"}
 NeedsM == {"oneM", "other", "search"}
 Fill == IF Wide THEN {"all", "none", "first", "last", "alt"} ELSE {"all", "alt", "none"}
 NL == IF Wide THEN {1, 2, 3} ELSE {1, 3}
